@@ -98,6 +98,18 @@ def _run_oracles(prop, feature, timeout):
     return res
 
 
+def run_assumed(timeout=900):
+    """spot checks of the preludes' ASSUMED contracts against the real crates (tests/verif_replay.rs, mod assumed_contracts)"""
+    saved = ORACLES.get("__assumed__")
+    ORACLES["__assumed__"] = ["assumed_"]
+    try:
+        r = _run_oracles("__assumed__", "verif", timeout)
+    finally:
+        if saved is None:
+            ORACLES.pop("__assumed__", None)
+    return r
+
+
 def witness_search(prop, violation):
     """concrete failing input for a failed obligation, or None"""
     r = run_oracles(prop)
